@@ -32,6 +32,8 @@ def _mirror_in(C, x, memo):
             m.attrs.pop('_pos', None)
     elif isinstance(x, PStr):
         m = PStr(rev(x.view))
+    elif isinstance(x, str) and (x == '' or (x.startswith('0b') and set(x[2:]) <= {'0', '1'})):
+        m = ('0b' + x[2:][::-1]) if x else ''          # (a concrete binary string operand, as used in native replays)
     elif isinstance(x, SymBytes):
         r = rev(BA(x.nbytes * 8, x.bit))
         m = SymBytes(x.nbytes, r.bit, x.kind)
